@@ -432,8 +432,9 @@ package rlwe
 //@   ensures forall(k, 0, L, galEls[k] < nr && cong(galEls[k], pow(GaloisGen, ((1 << (logN + k)) % W) & (nr - 1)), nr))
 //@   ensures implies(logN == 0 && p.ringType == ring.Standard, len(galEls) == L + 1 && galEls[L] == nr - 1)
 //@   ensures implies(!(logN == 0 && p.ringType == ring.Standard), len(galEls) == max(L, 0))
-//@   loop 0 invariant logN <= i && j == i - logN && len(galEls) == j && fresh(galEls) && (i <= p.logN - 1 || j == 0)
-//@   loop 0 invariant forall(k, 0, j, galEls[k] < nr && cong(galEls[k], pow(GaloisGen, ((1 << (logN + k)) % W) & (nr - 1)), nr))
+//@   loop 0 invariant logN <= i && len(galEls) == i - logN && fresh(galEls) && (i <= p.logN - 1 || i == logN)
+//@   loop 0 invariant? j == i - logN
+//@   loop 0 invariant forall(k, 0, i - logN, galEls[k] < nr && cong(galEls[k], pow(GaloisGen, ((1 << (logN + k)) % W) & (nr - 1)), nr))
 
 // The discrete logarithm: for every Galois element g = 5^kk (mod NthRoot) with kk in
 // [0, NthRoot/4) the function returns kk (dlog and lg2 are uninterpreted: the contract holds for
